@@ -83,11 +83,21 @@ def body(chk):
         n, p = (3, 4, 6)[j % 3], (5, 3, 4)[j % 3]
         cases.append(dict(kind=("signal", "processed")[j % 2], sample=("C*8", "IU2")[j % 2], images=[("HH", None, n, p)], rpc=(1, 2, 1024)[j % 3], seed=chk.seed + 23000 + j,
                           fss=["vtrace", "local"], sels=[("cells",), ("all",)], origin="single-cells"))
+    # one request group of more than 128 MiB (140 lines of 990 000 bytes with a request size above the line count) and one of 69 MB: every line,
+    # the first and the last, strided -- the samples name their own cell, so a line cut out a few bytes early or late shows
+    for j, (n, p, rpc) in enumerate(((140, 494904, 4096), (70, 494904, None))):
+        cases.append(dict(level="1.5", big=True, images=[("HH", None, n, p)], rpc=rpc, seed=chk.seed + 24000 + j, fss=["vtrace"],
+                          sels=[("all",), ("list", [0, n - 1]), ("slice", 0, n, 9), ("slice", n - 3, n, 1)], origin="huge-group", special=False))
     # one batched TLC layout export for everything the workers need
     L.tables()
     want = [dict(L.SMALL_LEADER), dict(L.SMALL_LEADER, nmap=0), dict(file="volume", nfp=3), dict(file="trailer", nlow=0, lens=[])]
+    want.append(dict(file="image", kind="processed", n=1, ndata=2, bps=2))
     for c in cases:
         _, _, n, p = c["images"][0]
+        if c.get("big"):
+            want.append(dict(file="image", kind="processed", n=n, ndata=2 * p, bps=2))
+            c.setdefault("kind", "processed"), c.setdefault("sample", "IU2")
+            continue
         bps = 8 if c["sample"] == "C*8" else 2
         want.append(dict(file="image", kind=c["kind"], n=n, ndata=p * bps, bps=bps))
     L.instances(want)
